@@ -877,7 +877,12 @@ func (g *gen) keyOp(tid string, inserted, deleted map[uint32]bool, insertedOK *[
 				return
 			}
 			g.txnSet["key|"+nk] = true
-			g.emit(fmt.Sprintf("p %s at %d key:%s", tid, off, nk))
+			if r.Intn(3) == 0 {
+				g.emit(fmt.Sprintf("p %s at %d rowkey:%s", tid, off, nk)) // through Row.SetKey
+				g.feat("rekey-by-row-setkey")
+			} else {
+				g.emit(fmt.Sprintf("p %s at %d key:%s", tid, off, nk))
+			}
 			g.feat("rekey")
 		}
 	}
